@@ -103,7 +103,7 @@ var binaryLabels = [][]byte{
 
 // namePool builds names related to the query name so that suffix sharing,
 // binary labels and near-collisions occur.
-func namePool(r *hrand, q refdns.Name, shape string, maxNames bool) []refdns.Name {
+func namePool(r *hrand, q refdns.Name, shape string, maxNames, nested bool) []refdns.Name {
 	ls := q.Labels()
 	pool := []refdns.Name{q}
 	suffix := func(k int) [][]byte {
@@ -152,6 +152,13 @@ func namePool(r *hrand, q refdns.Name, shape string, maxNames bool) []refdns.Nam
 		add(long, suffix(2))
 		add(long[1:], suffix(2))
 	}
+	if nested {
+		cur := append([][]byte{}, suffix(2)...)
+		for i, n := 0, 12+r.intn(5); i < n; i++ {
+			cur = append([][]byte{[]byte(fmt.Sprintf("n%d", i))}, cur...)
+			add(cur, nil)
+		}
+	}
 	if maxNames {
 		// the longest names there are: 255 octets on the wire, and one less
 		for _, target := range []int{255, 254} {
@@ -187,7 +194,7 @@ func Generate(seed uint64, up string, token string, qname refdns.Name, qclass, q
 	m := &refdns.Msg{}
 	m.Bits = refdns.BitQR | refdns.BitRA | refdns.BitRD | uint16(spec.Rcode&0xF) | spec.Bits&(refdns.BitAA|refdns.BitTC|refdns.BitAD|refdns.BitCD)
 	m.Q = []refdns.Question{{Name: qname, Type: qtype, Class: qclass}}
-	pool := namePool(r, qname, spec.Shape, spec.MaxNames)
+	pool := namePool(r, qname, spec.Shape, spec.MaxNames, spec.Nested)
 	ttl := func(i int) uint32 {
 		if len(spec.TTLs) == 0 {
 			return 300
@@ -246,6 +253,25 @@ func Generate(seed uint64, up string, token string, qname refdns.Name, qclass, q
 			}
 		}
 		return rr
+	}
+	if spec.Nested {
+		// a CNAME chain through names each of which extends the previous one by
+		// a label: with every suffix shared, name k is reached through k pointers
+		ls := qname.Labels()
+		if len(ls) > 2 {
+			ls = ls[len(ls)-2:]
+		}
+		cur := append([][]byte{}, ls...)
+		prev := qname
+		for i, n := 0, 12+r.intn(5); i < n; i++ {
+			cur = append([][]byte{[]byte(fmt.Sprintf("n%d", i))}, cur...)
+			nm := refdns.NameFromLabels(cur...)
+			if !nm.Valid() {
+				break
+			}
+			m.An = append(m.An, refdns.RR{Name: prev, Type: refdns.TypeCNAME, Class: qclass, TTL: ttl(i), Data: append([]byte{}, nm...)})
+			prev = nm
+		}
 	}
 	for i := 0; i < spec.NAn; i++ {
 		m.An = append(m.An, mk(0, i))
